@@ -14,6 +14,10 @@ TRUSTED_BASE = [
     "Spec/SIBrochure.v: the SI brochure table, written by hand",
     "no axioms (Print Assumptions: closed under the global context)",
 ]
+LEVEL = ("Coq theorems (Props/C16.v) over the prefix tables regenerated from src/si_prefixes.rs on every run: table = SI brochure, from_exp decided for all 256 i8 values, "
+         "from_abbr for every string (first-match lemma + computed key facts), three-column injectivity, iteration complete/duplicate-free/strictly increasing. The model of `match` "
+         "and of the EnumIter derive is validated against the real crate on every run (all exponents, all strings of length <= 2 over the abbreviation alphabet, random strings).")
+LEVEL_NOTE = "Trusted: Coq kernel (vm_compute), the translator rs2j+j2v, Spec/SIBrochure.v (hand-written brochure table), first-match reading of Rust match; no axioms."
 ASSUMPTIONS = [
     "rustc compiles `match` on string/integer literals as first-match and rejects non-exhaustive matches",
     "the harness (tools/harness) feeds the same inputs to the implementation as the cases file feeds to the model",
